@@ -93,7 +93,7 @@ def corpus():
     return [
         # known finding peerup-capability-panic: Initiation, then a Peer Up whose received OPEN has a capability of declared length 1 in 2 bytes
         "B 03000000100400020001720001000164;B 03000000840300000000000000000000000000000000000000000000c00002010000fde9000000016abd85ea00076b170000000000000000000000000a0000012b0b11d7ffffffffffffffffffffffffffffffff001d0104006f00000000000000ffffffffffffffffffffffffffffffff0023010400de00000000000006020440010000",
-        # C06_short_length_refuted: five bytes whose length field says 4 / 0 (panicked bmp_read before 525f161)
+        # C06_short_length_refuted: five bytes whose length field says 4 / 0 (panicked bmp_read before aa7f1e5)
         "B 0300000004",
         "B 0300000000",
         "B 03000000;B 03",
